@@ -181,6 +181,12 @@ def fit_int(st, t, ct, from_unsigned_bytes=False):
     if ct.is_bool():
         return t
     u = mk_cat(to_bytes(t, n))
+    if t[0] in ('add', 'sub', 'mul', 'div', 'mod', 'neg') and u[0] == 'cat' and all(b == ('byte', t, i) for i, b in enumerate(u[1])):
+        # a compound value that may have wrapped: keep it opaque (any value of the type) instead of
+        # nesting byte lanes of ever larger terms; equal terms give the same atom
+        lo_, hi_ = ct.minmax()
+        import hashlib
+        return ('sym', 'wrapped:' + hashlib.sha1(repr(t).encode()).hexdigest()[:12], lo_, hi_)
     if not ct.signed:
         return u
     s = mk_sext(u, n)
